@@ -333,6 +333,13 @@ theorem C06_queue_any_schedule {β : Type} (cfg : Cfg) (progs : Nat → List β)
     simp only [St.reports]
     exact (log_run cfg post s1).map _
 
+/-- non-vacuity of the hypotheses of `C06_queue_any_schedule`: a report, the cancel, one more report that still
+gets in, the drain loop empties the queue — the next `drain` step is the return; afterwards a late report -/
+example :
+    let progs : Nat → List Nat := fun r => if r = 0 then [1, 2, 3] else []
+    let s0 := run ⟨.encoder, 1⟩ (init progs) [.report 0, .cancel, .seeCancel, .drain, .report 0, .drain]
+    s0.phase = .draining ∧ s0.q = [] ∧ (step ⟨.encoder, 1⟩ s0 .drain).out = [(0, 1), (0, 2)] := by decide
+
 /-- every schedule after which `Run` has returned is of the form the previous theorem is about -/
 theorem C06_queue_return_split {β : Type} (cfg : Cfg) (progs : Nat → List β) (sched : List Ev)
     (h : (run cfg (init progs) sched).phase = .returned) :
